@@ -212,7 +212,7 @@ func Main(tier, replay string) {
 				diagErr := scen.HasErrorDiag(diags)
 				// (1) enforce flag: accepted only if every route (hidden included) has non-empty effective security
 				open := len(effOp) == 0 || len(effSib) == 0
-				if single {
+				{
 					switch {
 					case cs.Enforce && open && hard == "" && !diagErr:
 						run.Report(core.Violation{Oracle: "enforce-leaves-no-open-route", Features: feat(), What: "enforceSecurityOnAllRoutes=true but a project with a route without effective security was accepted", Case: c})
